@@ -114,6 +114,10 @@ type Exec struct {
 	fixed    []TapeEntry // concrete mode: input values
 	fixedPos int
 	model    map[string]uint64 // an assignment of the input variables satisfying the path condition (nil = none known)
+	conc       *concState
+	poolVCs    map[string][][]uint32
+	raceOff    int
+	raceCoarse bool
 }
 
 type noteRec struct {
@@ -791,8 +795,19 @@ func (ex *Exec) visit(fr *Frame, instr ssa.Instruction) bool {
 	case *ssa.Panic:
 		v := ex.get(fr, in.X)
 		panic(&GoPanic{val: v, msg: "explicit panic"})
-	case *ssa.Send, *ssa.Select, *ssa.MakeChan, *ssa.Go:
-		panic(unsupported("concurrency construct " + instr.String() + " in " + fr.fn.String()))
+	case *ssa.Select:
+		panic(unsupported("select statement in " + fr.fn.String()))
+	case *ssa.MakeChan:
+		n := ex.concInt(ex.get(fr, in.Size))
+		if n < 0 {
+			ex.goPanic("makechan: size out of range")
+		}
+		fr.set(in, ex.makeChan(n, fr.fn.Name()))
+	case *ssa.Send:
+		ch, _ := ex.get(fr, in.Chan).(*ChanVal)
+		ex.chanSend(ch, ex.get(fr, in.X))
+	case *ssa.Go:
+		ex.goStmt(fr, &in.Call)
 	case *ssa.Store:
 		p := ex.get(fr, in.Addr).(Pointer)
 		ex.store(p, in.Val.Type(), ex.get(fr, in.Val))
@@ -1140,7 +1155,13 @@ func (ex *Exec) unop(fr *Frame, in *ssa.UnOp) Value {
 	case token.XOR:
 		return ex.ts.Not(x.(*Term))
 	case token.ARROW:
-		panic(unsupported("channel receive in " + fr.fn.String()))
+		ch, _ := x.(*ChanVal)
+		et := in.X.Type().Underlying().(*types.Chan).Elem()
+		v, ok := ex.chanRecv(ch, ex.zeroValue(et))
+		if in.CommaOk {
+			return Tuple{v, ex.ts.Bool(ok)}
+		}
+		return v
 	}
 	panic(unsupported("unop " + in.Op.String()))
 }
@@ -1357,8 +1378,9 @@ func (ex *Exec) equal(x, y Value) *Term {
 			return ts.Bool(a.obj == nil && b.obj == nil)
 		}
 		ex.goPanic("comparing uncomparable type slice")
-	case Chan:
-		return ts.tTrue
+	case *ChanVal:
+		b, _ := y.(*ChanVal)
+		return ts.Bool(a == b)
 	case *MapVal:
 		b, _ := y.(*MapVal)
 		return ts.Bool(a == nil && b == nil)
@@ -1456,8 +1478,11 @@ func (ex *Exec) sliceLen(v Value) *Term {
 		return ex.ts.Const(64, uint64(len(s)))
 	case *ArrayVal:
 		return ex.ts.Const(64, uint64(s.n))
-	case Chan:
-		return ex.ts.Const(64, 0)
+	case *ChanVal:
+		if s == nil {
+			return ex.ts.Const(64, 0)
+		}
+		return ex.ts.Const(64, uint64(len(s.buf)))
 	case *MapVal:
 		if s == nil {
 			return ex.ts.Const(64, 0)
@@ -1481,8 +1506,11 @@ func (ex *Exec) callBuiltin(fr *Frame, name string, args []Value, deferredBy *Fr
 				return ts.Const(64, 0)
 			}
 			return s.cap
-		case Chan:
-			return ts.Const(64, 0)
+		case *ChanVal:
+			if s == nil {
+				return ts.Const(64, 0)
+			}
+			return ts.Const(64, uint64(s.cap))
 		}
 		return ex.sliceLen(args[0])
 	case "copy":
@@ -1525,7 +1553,9 @@ func (ex *Exec) callBuiltin(fr *Frame, name string, args []Value, deferredBy *Fr
 		}
 		return args[0]
 	case "close":
-		panic(unsupported("close of channel"))
+		ch, _ := args[0].(*ChanVal)
+		ex.chanClose(ch)
+		return nil
 	case "delete":
 		m := args[0].(*MapVal)
 		if m != nil {
@@ -1558,7 +1588,13 @@ func (ex *Exec) copyBuiltin(dst Slice, srcv Value) Value {
 		return ts.Const(64, 0)
 	}
 	if dst.obj.released || src.obj.released {
-		ex.event("use-after-put", "copy touching object released to pool")
+		ex.useAfterPut("copy touching object released to pool")
+	}
+	if ex.conc != nil && dst.off.IsConst() && src.off.IsConst() {
+		ex.raceAccess(src.obj, int(src.off.val), int(src.off.val)+n*dst.es, false)
+		ex.raceAccess(dst.obj, int(dst.off.val), int(dst.off.val)+n*dst.es, true)
+		ex.raceOff++
+		defer func() { ex.raceOff-- }()
 	}
 	es := dst.es
 	cells := n * es
